@@ -613,8 +613,131 @@ func (e *Exec) argKeys(a Val, keys map[string]string) {
 	}
 }
 
+// privateCells: captured variables of the closure under verification whose address never leaves
+// it (only loaded from and stored to). No callee can reach such a cell, so a havoc on behalf of a
+// call keeps its contents; `written` lists the ones the enclosing loop body stores to itself.
+func (e *Exec) privateCells(st *State, written map[*ssa.FreeVar]bool) map[string][]string {
+	out := map[string][]string{}
+	for _, fv := range e.fn.FreeVars {
+		pt, ok := fv.Type().Underlying().(*types.Pointer)
+		if !ok || written[fv] {
+			continue
+		}
+		leaked := false
+		for _, r := range *fv.Referrers() {
+			switch x := r.(type) {
+			case *ssa.UnOp:
+				if x.Op != token.MUL {
+					leaked = true
+				}
+			case *ssa.Store:
+				if x.Val == fv {
+					leaked = true
+				}
+			case *ssa.DebugRef:
+			default:
+				leaked = true
+			}
+		}
+		v, has := st.vals[fv]
+		if leaked || !has || v.A != nil || v.S == "" {
+			continue
+		}
+		k, _ := e.cellKey(pt.Elem())
+		out[k] = append(out[k], v.S)
+	}
+	// variables of the function itself that are captured by closures which are only returned:
+	// until the function returns nobody else holds their address
+	if e.curFn == nil || e.curFn == e.fn {
+		for _, b := range e.fn.Blocks {
+			for _, ins := range b.Instrs {
+				al, ok := ins.(*ssa.Alloc)
+				if !ok || !al.Heap || written != nil {
+					continue
+				}
+				v, has := st.vals[al]
+				if !has || v.A != nil || v.S == "" || !onlyReturned(al) {
+					continue
+				}
+				k, _ := e.cellKey(al.Type().(*types.Pointer).Elem())
+				if _, known := e.memSort[k]; !known {
+					continue
+				}
+				out[k] = append(out[k], v.S)
+			}
+		}
+	}
+	return out
+}
+
+// onlyReturned: the address of the cell is used for loads and stores and captured by closures
+// whose value flows nowhere but into return instructions.
+func onlyReturned(al *ssa.Alloc) bool {
+	var flowsToReturn func(v ssa.Value, depth int) bool
+	flowsToReturn = func(v ssa.Value, depth int) bool {
+		if depth > 4 || v.Referrers() == nil {
+			return false
+		}
+		for _, r := range *v.Referrers() {
+			switch x := r.(type) {
+			case *ssa.Return, *ssa.DebugRef:
+			case *ssa.ChangeType:
+				if !flowsToReturn(x, depth+1) {
+					return false
+				}
+			default:
+				return false
+			}
+		}
+		return true
+	}
+	for _, r := range *al.Referrers() {
+		switch x := r.(type) {
+		case *ssa.UnOp:
+			if x.Op != token.MUL {
+				return false
+			}
+		case *ssa.Store:
+			if x.Val == al {
+				return false
+			}
+		case *ssa.DebugRef:
+		case *ssa.MakeClosure:
+			if !flowsToReturn(x, 0) {
+				return false
+			}
+		default:
+			return false
+		}
+	}
+	return true
+}
+
 func (e *Exec) havocKeys(st *State, keys map[string]string, all bool) {
+	e.havocKeysW(st, keys, all, nil)
+}
+
+// keepsType: the contract of the callee being havocked for says (`preserves_types A B`) that it
+// never writes fields of objects of these struct types (a trusted frame statement).
+func (e *Exec) keepsType(key string) bool {
+	if len(e.keepTypes) == 0 || !strings.HasPrefix(key, "H|") {
+		return false
+	}
+	parts := strings.Split(key, "|")
+	if len(parts) < 3 {
+		return false
+	}
+	for _, t := range e.keepTypes {
+		if parts[1] == t || strings.HasSuffix(parts[1], "."+t) {
+			return true
+		}
+	}
+	return false
+}
+
+func (e *Exec) havocKeysW(st *State, keys map[string]string, all bool, written map[*ssa.FreeVar]bool) {
 	var havocked []string
+	priv := e.privateCells(st, written)
 	if all {
 		for k, s := range e.memSort {
 			if strings.HasPrefix(k, "L|") || strings.HasPrefix(k, "IT|") || k == "top" || strings.HasPrefix(k, "ghost|") {
@@ -626,8 +749,18 @@ func (e *Exec) havocKeys(st *State, keys map[string]string, all bool) {
 	}
 	for _, k := range sortedKeys(keys) {
 		srt := keys[k]
-		e.memGet(st, k, srt) // make sure the entry value exists (for old())
-		st.mem[k] = e.sc.fresh("hv."+k, srt)
+		if e.keepsType(k) {
+			continue
+		}
+		before := e.memGet(st, k, srt) // make sure the entry value exists (for old())
+		nv := e.sc.fresh("hv."+k, srt)
+		for _, ref := range priv[k] {
+			nv = fmt.Sprintf("(store %s %s (select %s %s))", nv, ref, before, ref)
+		}
+		if len(priv[k]) > 0 {
+			nv = e.sc.define("hvp."+k, srt, nv)
+		}
+		st.mem[k] = nv
 		havocked = append(havocked, k)
 	}
 	// allocation may have happened
